@@ -118,6 +118,8 @@ def check_state(res, p, rng, ctx):
         return
     raw = p.read()
     res.case((tuple(map(repr, before)), "native"), nontrivial=nontrivial)
+    if nontrivial and rng.random() < 0.02:
+        workload.saves_into_positioned_streams(res, "C08", p, case)
     # an application that COLLECTS the chunk sequence first (to sort, measure or checksum it) and writes it afterwards
     # gets the same file as the streaming writer
     if nontrivial and rng.random() < 0.3:
